@@ -229,7 +229,14 @@ def check_history_case(case, ctx):
         return R
     a, notes, events, dur = live
     R.flags.append("identity:history")
-    b = lib.seq_abs(notes, events, dur)
+    # the rebuilt twin carries its signature events on the channel the live object carries them on (a history may have
+    # re-assigned it: set_channel); several channels cannot be expressed by the description and are skipped
+    ev_ch = sorted({e[2] for e in lib.non_note(lib.view_abs(a)[0])})
+    if len(ev_ch) > 1:
+        R.outcome = "history_events_on_several_channels"
+        return R
+    ch_ev = ev_ch[0] if ev_ch else 0
+    b = lib.seq_abs(notes, events, dur, ch_events=ch_ev)
     n = 0
     for fl in FLAGSETS:
         for x, y, nm in ((a, b, "live.equals(rebuilt)"), (b, a, "rebuilt.equals(live)")):
@@ -238,7 +245,7 @@ def check_history_case(case, ctx):
             if got is not True:
                 R.bad("reports_unequal_but_same:history", f"{nm} flags {fl} returned {got}; content {notes} {events}")
     if notes:
-        c = lib.seq_abs([[notes[0][0], notes[0][1], notes[0][2] + 1] + list(notes[0][3:])] + notes[1:], events, dur)
+        c = lib.seq_abs([[notes[0][0], notes[0][1], notes[0][2] + 1] + list(notes[0][3:])] + notes[1:], events, dur, ch_events=ch_ev)
         if lib.well_formed([[notes[0][0], notes[0][1], notes[0][2] + 1] + list(notes[0][3:])] + notes[1:]) and (a.equals(c) or c.equals(a)):
             R.bad("reports_equal_but_differs:history", f"a pitch differs yet equals is True; content {notes}")
     R.transitions = R.validated = n
